@@ -105,3 +105,14 @@ Theorem C08_builder_equals_reference_after_any_history : forall size lg, permitt
   build_sharded size HashMurmur3 (mrun ops) = Ok (serialize_node size HashMurmur3 (pad_len size) (BShard t)).
 Proof. exact ref_history_is_the_built_directory. Qed.
 Print Assumptions C08_builder_equals_reference_after_any_history.
+
+(* the reference's serialization does not remember the history: two histories ending in the same entry set leave byte-identical
+   shards (root block and cumulative size) - which is why one canonical form is all this library's builder has to match *)
+Theorem C08_reference_shard_is_history_independent : forall size lg, permitted size lg ->
+  forall H : bytes -> bytes, (forall k, wf_bytes (H k) = true) -> (forall k, length (H k) = 8%nat) ->
+  forall fuel1 fuel2 ops1 ops2 t1 t2,
+  Forall (hop_ok H) ops1 -> Forall (hop_ok H) ops2 -> hrun lg fuel1 ops1 = Ok t1 -> hrun lg fuel2 ops2 = Ok t2 ->
+  Permutation (mrun ops1) (mrun ops2) ->
+  serialize_node size HashMurmur3 (pad_len size) (BShard t1) = serialize_node size HashMurmur3 (pad_len size) (BShard t2).
+Proof. exact ref_history_independent. Qed.
+Print Assumptions C08_reference_shard_is_history_independent.
